@@ -19,7 +19,7 @@ func init() { rt.Register("c19", Run) }
 // ---- a session script: what the owner of a udf.Server does, in order ----
 
 type op struct {
-	k    string       // send | snap | restore | snapAsync | restoreAsync | await | holdFrom | releaseFrom | abort | waitOut | ticks
+	k    string       // send | snap | restore | snapAsync | restoreAsync | await | holdFrom | releaseFrom | abort | waitOut | ticks | inject | armHold | heldInject
 	m    edge.Message // send
 	data []byte       // restore
 	n    int          // waitOut: number of outputs to wait for; ticks: keepalive round trips to wait for
@@ -32,6 +32,26 @@ type script struct {
 	timeout time.Duration // keepalive timeout (0 = none)
 	pad     int
 	noClone bool // the echo handler sends back the object the agent decoded (as the mirror example does)
+}
+
+// countOuts: how many messages come out of the server for these inputs (points and completed batches).
+func countOuts(ms []edge.Message) int {
+	n := 0
+	for _, m := range ms {
+		switch m.(type) {
+		case edge.PointMessage, edge.BufferedBatchMessage, edge.EndBatchMessage:
+			n++
+		}
+	}
+	return n
+}
+
+// wireCount: data messages udf.Server writes for one edge message (supported field types only).
+func wireCount(m edge.Message) int {
+	if b, ok := m.(edge.BufferedBatchMessage); ok {
+		return len(b.Points()) + 2
+	}
+	return 1
 }
 
 func sendOps(ms ...edge.Message) []op {
@@ -129,6 +149,8 @@ type sessionResult struct {
 	spurious bool // the keepalive watchdog fired: load, not a verdict
 	rec      *recorder
 	ticks    int
+	wire     []byte
+	wireN    int
 }
 
 // runSession executes one script against a fresh real udf.Server + echo agent and records it.
@@ -177,6 +199,7 @@ func runSession(sc script, rnd *rand.Rand) (*sessionResult, error) {
 	call("init", nil, func() (rt.M, error) { return nil, s.srv.Init(nil) })
 	var pending chan struct{}
 	aborted := false
+	wireSent := 0 // data messages put on the wire by the sends so far
 	for _, o := range sc.ops {
 		if hung {
 			return res, nil
@@ -195,6 +218,8 @@ func runSession(sc script, rnd *rand.Rand) (*sessionResult, error) {
 			rec.ev("Sent", rt.M{"ok": ok})
 			if !ok {
 				aborted = true
+			} else {
+				wireSent += wireCount(o.m)
 			}
 		case "snap":
 			call("snapshot", nil, snap)
@@ -241,6 +266,41 @@ func runSession(sc script, rnd *rand.Rand) (*sessionResult, error) {
 				}
 				pending = nil
 			}
+		case "inject":
+			// a request of the driver's own between two frames of the server: "empty" (one byte 0x00) or "keepalive"
+			rec.ev("Inject", rt.M{"kind": string(o.data)})
+			s.inject(string(o.data))
+		case "armHold":
+			// the header write of the agent's NEXT response frame will be held (bytes in the pipe, call not returning);
+			// first the agent must have dealt with everything sent so far
+			start := time.Now()
+			for s.h.seenCount() < wireSent {
+				if time.Since(start) > opDeadline {
+					return res, fmt.Errorf("the agent saw %d of %d data messages", s.h.seenCount(), wireSent)
+				}
+				time.Sleep(100 * time.Microsecond)
+			}
+			s.out.holdHeaderOfNext(s.h.handed() + s.strayKA)
+		case "heldInject":
+			// ... and while the agent's writer sits between header and body of that response, a keepalive request is
+			// delivered.  The writer is released once the agent has dealt with the request as far as it can: either
+			// somebody else wrote to the agent's output meanwhile, or the read loop is parked handing the keepalive
+			// response to the (busy) single writer.  Gates only; a gate that does not open is a harness error.
+			if !s.out.waitHolding(opDeadline) {
+				return res, fmt.Errorf("the agent never started to write the response whose header was to be held")
+			}
+			rec.ev("Inject", rt.M{"kind": "keepalive"})
+			s.inject("keepalive")
+			start := time.Now()
+			for s.out.othersWhileHeld() == 0 && !readLoopParked() {
+				if time.Since(start) > opDeadline {
+					s.out.release()
+					return res, fmt.Errorf("the agent neither wrote nor parked after the keepalive request")
+				}
+				time.Sleep(100 * time.Microsecond)
+			}
+			rec.ev("Note", rt.M{"what": "agent writer released", "writes_while_held": s.out.othersWhileHeld()})
+			s.out.release()
 		case "holdFrom":
 			s.fromAgent.Hold()
 			rec.ev("Note", rt.M{"what": "responses held back"})
@@ -332,6 +392,13 @@ func runSession(sc script, rnd *rand.Rand) (*sessionResult, error) {
 	}
 	rec.ev("Diag", rt.M{"dropped": dropped, "errors": strsAny(s.diag.Errors())})
 	res.ticks = s.keepalives()
+	// the agent -> server byte stream as a whole: whole frames, as many as responses were handed to the agent's
+	// writer (unknown when the server's own keepalive timer ran)
+	res.wire = s.fromAgent.Written()
+	res.wireN = s.h.handed() + s.strayKA
+	if sc.timeout > 0 {
+		res.wireN = -1
+	}
 	return res, nil
 }
 
@@ -356,6 +423,7 @@ func emit(t *rt.Trace, sc script, rec *recorder) {
 // restore calls, held-back responses, keepalives, aborts) on the real udf.Server.
 func Run(r *rt.Run) error {
 	t := r.NewTrace("proto")
+	tw := r.NewTrace("wire")
 	var scripts []script
 	frags := []string{"", "1", "2", "3", "7", "rnd"}
 	add := func(sc script) { scripts = append(scripts, sc) }
@@ -445,6 +513,52 @@ func Run(r *rt.Run) error {
 			ops = append(ops, op{k: "releaseFrom"}, op{k: "await"}, op{k: "snap"})
 			add(script{name: fmt.Sprintf("held-%s@%d", async, pos), ops: ops, frag: frags[(pos+2)%len(frags)], pad: 300})
 		}
+	}
+	// (4b) requests udf.Server never writes, between its frames: an empty request (a frame without body; the agent
+	// decodes every frame into one reused Request value) and an extra keepalive request, at every position of a
+	// mixed sequence incl. inside an unbuffered batch - the agent must ignore the one and answer the other, with no
+	// effect on the data
+	for pos := 0; pos <= len(mixed); pos++ {
+		for vi, kinds := range [][]string{{"empty"}, {"keepalive"}, {"empty", "empty", "keepalive", "empty"}} {
+			if vi == 2 && pos%2 == 1 {
+				continue
+			}
+			var ops []op
+			ops = append(ops, sendOps(mixed[:pos]...)...)
+			for _, k := range kinds {
+				ops = append(ops, op{k: "inject", data: []byte(k)})
+			}
+			ops = append(ops, sendOps(mixed[pos:]...)...)
+			ops = append(ops, op{k: "inject", data: []byte("empty")}, op{k: "snap"})
+			add(script{name: fmt.Sprintf("stray%d@%d", vi, pos), ops: ops, frag: frags[(pos+vi)%len(frags)], pad: 10 * pos})
+		}
+	}
+	// (4c) a keepalive request delivered while the agent's writer is between the header and the body of a response
+	// (held there by the pipe): echo of a point, of Begin / batch point / End, response of a snapshot request.
+	// The agent has one writer: the keepalive response must come after the whole frame.
+	ub := unbuffered(bts[4])
+	heldCases := []struct {
+		name   string
+		before []edge.Message
+		held   []op
+		after  []edge.Message
+	}{
+		{"point", []edge.Message{pts[0]}, sendOps(pts[2]), []edge.Message{pts[1]}},
+		{"first", nil, sendOps(pts[15]), []edge.Message{bts[3]}},
+		{"begin", []edge.Message{pts[0]}, sendOps(ub[0]), ub[1:]},
+		{"batchpoint", ub[:1], sendOps(ub[1]), ub[2:]},
+		{"end", ub[:3], sendOps(ub[3]), []edge.Message{pts[1]}},
+		{"snapshot", []edge.Message{pts[0]}, []op{{k: "snapAsync"}}, []edge.Message{pts[1]}},
+	}
+	for i, hc := range heldCases {
+		var ops []op
+		ops = append(ops, sendOps(hc.before...)...)
+		ops = append(ops, op{k: "waitOut", n: countOuts(hc.before)}, op{k: "armHold"})
+		ops = append(ops, hc.held...)
+		ops = append(ops, op{k: "heldInject"}, op{k: "await"})
+		ops = append(ops, sendOps(hc.after...)...)
+		ops = append(ops, op{k: "snap"})
+		add(script{name: "heldhdr-" + hc.name, ops: ops, frag: frags[i%len(frags)], pad: 40})
 	}
 	// (5) owner abort at every position (outputs are a prefix; Stop returns the abort error; nothing hangs)
 	for pos := 0; pos <= 3; pos++ {
@@ -536,6 +650,10 @@ func Run(r *rt.Run) error {
 		ticks += res.ticks
 		emit(t, sc, res.rec)
 		t.Distinct(sc.name)
+		if res.wire != nil {
+			tw.Reset(rt.M{"mode": "frame", "name": sc.name})
+			tw.Event("Wire", rt.M{"bytes": ints(res.wire), "n": res.wireN})
+		}
 	}
 	r.Extra["proto_sessions"] = len(scripts)
 	r.Extra["keepalive_round_trips"] = ticks
